@@ -171,3 +171,249 @@ func VH_C09_tables() {
 	}
 	vReach("end")
 }
+
+// ---- projection files: init + forward + inverse against the JS originals ----
+//
+// The Go closure pair returned by the projection's constructor is compared with
+// the JS module's init/forward/inverse run on a `this` object carrying the same
+// parameter values. Every parameter is a free finite non-zero double (proj4js
+// tests parameters for presence by truthiness, which treats 0 as absent; the
+// port tests for NaN — zero-valued parameters are outside this comparison).
+
+var vJSFields = []struct {
+	js string
+	g  func(*SR) *float64
+}{
+	{"a", func(s *SR) *float64 { return &s.A }}, {"b", func(s *SR) *float64 { return &s.B }},
+	{"es", func(s *SR) *float64 { return &s.Es }}, {"e", func(s *SR) *float64 { return &s.E }},
+	{"ep2", func(s *SR) *float64 { return &s.Ep2 }},
+	{"lat0", func(s *SR) *float64 { return &s.Lat0 }}, {"lat1", func(s *SR) *float64 { return &s.Lat1 }},
+	{"lat2", func(s *SR) *float64 { return &s.Lat2 }}, {"lat_ts", func(s *SR) *float64 { return &s.LatTS }},
+	{"long0", func(s *SR) *float64 { return &s.Long0 }},
+	{"x0", func(s *SR) *float64 { return &s.X0 }}, {"y0", func(s *SR) *float64 { return &s.Y0 }},
+	{"k0", func(s *SR) *float64 { return &s.K0 }},
+}
+
+func vProjPair(goName, jsModule string, given []string, dir int) {
+	sr := NewSR()
+	this := jsNewObj()
+	for _, f := range vJSFields {
+		on := false
+		for _, g := range given {
+			on = on || g == f.js
+		}
+		if !on {
+			continue
+		}
+		v := vFloat64()
+		vAssume(vAnd(!math.IsNaN(v), !math.IsInf(v, 0), v != 0))
+		*f.g(sr) = v
+		this.set(f.js, v)
+	}
+	if goName == "merc" {
+		// the Mercator forward reads the eccentricity stored in the SR, the JS one
+		// the value its init derives from b/a: compared with the stored value being
+		// that derivation (the two derivations differ by rounding only)
+		con := sr.B / sr.A
+		sr.Es = 1 - con*con
+		sr.E = math.Sqrt(sr.Es)
+	}
+	sr.sphere = vChoose(2) == 1
+	if sr.sphere {
+		this.set("sphere", true)
+	}
+	x, y := vFloat64(), vFloat64()
+	vAssume(vAnd(!math.IsNaN(x), !math.IsNaN(y)))
+	fwdDir := dir == 0 || dir == 2 && vChoose(2) == 0
+	ctor, ok := projections[goName]
+	vAssert(ok, "projection-registered")
+	fwd, inv, err := ctor(sr)
+	vm := jsNewVM()
+	mod := vm.require("projections/" + jsModule).(*jsObj)
+	vm.call(mod.m["init"], this, nil)
+	if err != nil {
+		// the constructor rejected the parameters (proj4js leaves the object half initialised)
+		vReach("end")
+		return
+	}
+	if goName == "merc" && dir == 0 {
+		// the usable region: proj4js' own range test can never fire (it joins the
+		// four conditions with &&), the port rejects such positions
+		vAssume(!(y*r2d > 90 || y*r2d < -90 || x*r2d > 180 || x*r2d < -180))
+	}
+	p := jsNewObj()
+	p.set("x", x)
+	p.set("y", y)
+	var gx, gy float64
+	var gerr error
+	var r interface{}
+	if fwdDir {
+		gx, gy, gerr = fwd(x, y)
+		r = vm.call(mod.m["forward"], this, []interface{}{p})
+	} else {
+		gx, gy, gerr = inv(x, y)
+		r = vm.call(mod.m["inverse"], this, []interface{}{p})
+	}
+	ro, isPoint := r.(*jsObj)
+	// proj4js signals failure through sentinel values (-9999, null, a number)
+	// tested with ===; under uninterpreted arithmetic such a test can be
+	// satisfied spuriously, so a mismatch counts only when it reproduces natively
+	if gerr != nil {
+		// ... or through a NaN coordinate (imlfn without convergence)
+		jsFailed := !isPoint
+		if isPoint {
+			jsFailed = vOr(math.IsNaN(jsNum(ro.m["x"])), math.IsNaN(jsNum(ro.m["y"])))
+		}
+		vAssertCandidate(jsFailed, "go-error-only-where-proj4js-fails")
+	} else {
+		vAssertCandidate(isPoint, "proj4js-failure-only-where-go-errors")
+		if isPoint {
+			vAssert(vSameNum(gx, jsNum(ro.m["x"])), "x-equals-proj4js")
+			vAssert(vSameNum(gy, jsNum(ro.m["y"])), "y-equals-proj4js")
+		}
+	}
+	vReach("end")
+}
+
+var vAll = []string{"a", "b", "es", "e", "ep2", "lat0", "lat1", "lat2", "long0", "x0", "y0", "k0"}
+
+func VH_C09_proj_tmerc() {
+	vProjPair("tmerc", "tmerc", []string{"a", "es", "ep2", "lat0", "long0", "x0", "y0", "k0"}, 2)
+}
+func VH_C09_proj_merc_fwd() {
+	vProjPair("merc", "merc", []string{"a", "b", "es", "e", "long0", "x0", "y0", "k0", "lat_ts"}, 0)
+}
+func VH_C09_proj_merc_inv() {
+	vProjPair("merc", "merc", []string{"a", "b", "es", "e", "long0", "x0", "y0", "k0", "lat_ts"}, 1)
+}
+func VH_C09_proj_lcc_fwd()  { vProjPair("lcc", "lcc", vAll, 0) }
+func VH_C09_proj_aea_fwd()  { vProjPair("aea", "aea", vAll, 0) }
+func VH_C09_proj_eqdc_fwd() { vProjPair("eqdc", "eqdc", vAll, 0) }
+func VH_C09_proj_eqdc_inv() { vProjPair("eqdc", "eqdc", vAll, 1) }
+
+// the inverses of lcc and aea (phi2z / phi1z iterations times the constructor's
+// cases) are not registered: not decided within 5 minutes
+
+// ---- datum.go against datum.js: constructor and geocentric methods ----
+
+// vDatumPair builds the Go datum (SR.getDatum) and the JS one (datum(proj))
+// from the same description: ellipsoid values free, TOWGS84 with 0, 3 or 7
+// free terms (any of them may be zero), datum code "none" or a name.
+func vDatumPair() (*datum, *jsObj, *jsVM) {
+	sr := NewSR()
+	proj := jsNewObj()
+	for _, f := range []struct {
+		js string
+		p  *float64
+	}{{"a", &sr.A}, {"b", &sr.B}, {"es", &sr.Es}, {"ep2", &sr.Ep2}} {
+		v := vFloat64()
+		vAssume(!math.IsNaN(v))
+		*f.p = v
+		proj.set(f.js, v)
+	}
+	if vChoose(2) == 1 {
+		sr.DatumCode = "none"
+	} else {
+		sr.DatumCode = "verif"
+	}
+	proj.set("datumCode", sr.DatumCode)
+	n := []int{0, 3, 7}[vChoose(3)]
+	if n > 0 {
+		ps := jsNewObj()
+		ps.arr = make([]interface{}, n)
+		sr.DatumParams = make([]float64, n)
+		for i := 0; i < n; i++ {
+			v := vFloat64()
+			vAssume(!math.IsNaN(v))
+			sr.DatumParams[i] = v
+			ps.arr[i] = v
+		}
+		proj.set("datum_params", ps)
+	}
+	vm := jsNewVM()
+	jd := vm.call(vm.require("datum"), jsUndef{}, []interface{}{proj}).(*jsObj)
+	return sr.getDatum(), jd, vm
+}
+
+func vSameDatum(g *datum, j *jsObj, vm *jsVM) {
+	vAssert(float64(g.datum_type) == jsNum(vm.getMember(j, "datum_type")), "datum-type-equals-proj4js")
+	jp, _ := vm.getMember(j, "datum_params").(*jsObj)
+	if jp == nil {
+		vAssert(len(g.datum_params) == 0, "datum-params-equal-proj4js")
+	} else {
+		vAssert(len(g.datum_params) == len(jp.arr), "datum-params-equal-proj4js")
+		for i := range g.datum_params {
+			if i < len(jp.arr) {
+				vAssert(vSameNum(g.datum_params[i], jsNum(jp.arr[i])), "datum-params-equal-proj4js")
+			}
+		}
+	}
+	vAssert(vSameNum(g.a, jsNum(vm.getMember(j, "a"))) && vSameNum(g.b, jsNum(vm.getMember(j, "b"))) &&
+		vSameNum(g.es, jsNum(vm.getMember(j, "es"))) && vSameNum(g.ep2, jsNum(vm.getMember(j, "ep2"))), "datum-ellipsoid-equals-proj4js")
+}
+
+func VH_C09_datum_constructor() {
+	g, j, vm := vDatumPair()
+	vSameDatum(g, j, vm)
+	vReach("end")
+}
+
+func vJSPoint(x, y, z float64) *jsObj {
+	p := jsNewObj()
+	p.set("x", x)
+	p.set("y", y)
+	p.set("z", z)
+	return p
+}
+
+// the Helmert steps to and from WGS84 in geocentric coordinates
+func VH_C09_datum_helmert() {
+	g, j, vm := vDatumPair()
+	x, y, z := vFloat64(), vFloat64(), vFloat64()
+	vAssume(vAnd(!math.IsNaN(x), !math.IsNaN(y), !math.IsNaN(z)))
+	p := vJSPoint(x, y, z)
+	var gx, gy, gz float64
+	if vChoose(2) == 0 {
+		gx, gy, gz = g.geocentric_to_wgs84(x, y, z)
+		vm.call(vm.getMember(j, "geocentric_to_wgs84"), j, []interface{}{p})
+	} else {
+		gx, gy, gz = g.geocentric_from_wgs84(x, y, z)
+		vm.call(vm.getMember(j, "geocentric_from_wgs84"), j, []interface{}{p})
+	}
+	vAssert(vSameNum(gx, jsNum(p.m["x"])) && vSameNum(gy, jsNum(p.m["y"])) && vSameNum(gz, jsNum(p.m["z"])), "helmert-step-equals-proj4js")
+	vReach("end")
+}
+
+// geodetic <-> geocentric
+func VH_C09_datum_to_geocentric()   { vDatumGeocentric(0) }
+// geocentric_to_geodetic (iterative, 30 rounds) is not registered: not decided within 5 minutes
+
+func vDatumGeocentric(dir int) {
+	g, j, vm := vDatumPair()
+	x, y, z := vFloat64(), vFloat64(), vFloat64()
+	vAssume(vAnd(!math.IsNaN(x), !math.IsNaN(y), !math.IsNaN(z)))
+	if dir == 0 {
+		// usable region: latitudes within [-pi/2, pi/2] (the 0.1 % tolerance band
+		// beyond the poles is delimited by a constant that differs in the last
+		// place between the two languages' constant arithmetic), and a non-zero
+		// height (proj4js replaces a zero or missing height by +0)
+		vAssume(vAnd(!(y < -halfPi), !(y > halfPi), z != 0))
+	}
+	p := vJSPoint(x, y, z)
+	if dir == 0 {
+		gx, gy, gz, err := g.geodetic_to_geocentric(x, y, z)
+		r := vm.call(vm.getMember(j, "geodetic_to_geocentric"), j, []interface{}{p})
+		if err != nil {
+			// proj4js returns null for a latitude out of range
+			vAssertCandidate(r == nil, "go-error-only-where-proj4js-fails")
+		} else {
+			vAssertCandidate(r != nil, "proj4js-failure-only-where-go-errors")
+			vAssert(vSameNum(gx, jsNum(p.m["x"])) && vSameNum(gy, jsNum(p.m["y"])) && vSameNum(gz, jsNum(p.m["z"])), "geodetic-to-geocentric-equals-proj4js")
+		}
+	} else {
+		gx, gy, gz := g.geocentric_to_geodetic(x, y, z)
+		vm.call(vm.getMember(j, "geocentric_to_geodetic"), j, []interface{}{p})
+		vAssert(vSameNum(gx, jsNum(p.m["x"])) && vSameNum(gy, jsNum(p.m["y"])) && vSameNum(gz, jsNum(p.m["z"])), "geocentric-to-geodetic-equals-proj4js")
+	}
+	vReach("end")
+}
